@@ -464,6 +464,37 @@ func ruleAR() Rule {
 				rr.Unkp(c.P, "anchor:interp.(*ExecEnv).Set", 0, "ExecEnv.Set not found")
 				return
 			}
+			// a hand-written helper of the package that stores a variable itself (the four
+			// increment actions sharing one function) counts like the store
+			storesMemo := map[*core.Func]bool{}
+			var stores func(g *core.Func, depth int) bool
+			stores = func(g *core.Func, depth int) bool {
+				if g == nil {
+					return false
+				}
+				if g == set {
+					return true
+				}
+				if v, ok := storesMemo[g]; ok {
+					return v
+				}
+				storesMemo[g] = false
+				if depth > 2 || g.Generated || g.Pkg.Name != "interp" || g.Body == nil || g.Decl == nil || g.Obj == nil || g.Obj.Exported() {
+					return false
+				}
+				found := false
+				gi2 := g.Info()
+				g.OwnNodes(func(n ast.Node) bool {
+					if call, ok := n.(*ast.CallExpr); ok {
+						if fo := core.StaticCallee(gi2, call); fo != nil && stores(c.P.FuncOf(fo), depth+1) {
+							found = true
+						}
+					}
+					return !found
+				})
+				storesMemo[g] = found
+				return found
+			}
 			// effects per production
 			type eff struct{ sets, traps []string }
 			effects := map[int]*eff{}
@@ -483,10 +514,12 @@ func ruleAR() Rule {
 					if fo == nil {
 						return true
 					}
-					switch c.P.FuncOf(fo) {
-					case set:
-						e.sets = append(e.sets, p.String())
-					case calc:
+					switch g := c.P.FuncOf(fo); {
+					case g != nil && g != calc && stores(g, 0):
+						if len(e.sets) == 0 { // one store per production, however it is spelled
+							e.sets = append(e.sets, p.String())
+						}
+					case g != nil && g == calc:
 						if len(p.RHS) == 3 && trapOp[p.RHS[1]] {
 							e.traps = append(e.traps, p.String())
 						}
@@ -564,15 +597,20 @@ func ruleAR() Rule {
 				if cc == nil {
 					continue
 				}
+				counted := false
 				ast.Inspect(cc, func(x ast.Node) bool {
 					call, ok := x.(*ast.CallExpr)
-					if !ok {
+					if !ok || counted {
 						return true
 					}
 					fo := core.StaticCallee(info, call)
-					if fo == nil || c.P.FuncOf(fo) != set {
+					if fo == nil {
 						return true
 					}
+					if g := c.P.FuncOf(fo); g == nil || g == calc || !stores(g, 0) {
+						return true
+					}
+					counted = true
 					total++
 					if !firstPos.IsValid() {
 						firstPos = call.Pos()
